@@ -69,6 +69,21 @@ PROPS = {
         ],
         "gen": ["EffectOrder", "Consts"],
     },
+    "C07": {
+        "level_text": "Lean 4 theorems over an executable model of everything one run writes (thread_post_message, run_session, the agent loop) as a function of the environment's behaviour — input kind (prompt, tool envelope, checkpoint envelope), provider configured or not, context compilation succeeding or failing, any number of provider turns each streaming any number of frames and making the loop run any tools (mutating or read-only, barred or not, any amount of output), any end reason, cursor or none: for EVERY such behaviour the thread's view of an attached run is message, run_spawned, [selection decided, context compiled], side-effects*, [cursor], run_ended (the acceptor is proved to decide exactly this language), with exactly one of message / run_spawned / run_ended; run_ended is the last frame and directly follows the run's own terminal session frame; the session stream starts with its start frame and has exactly one end frame, last; an unattached session writes nothing on any thread; for parallel runs on one thread every interleaving keeps each run's lifecycle. Obligations re-proved by decide on effect orders REGENERATED from the current source on every run: run_session performs selection, compilation, the loop, the cursor update, the snapshot and run_ended once each in that order, run_ended after every frame emission, with NO early exit in its body (single exit path); thread_post_message appends message, run_spawned, then spawns; side-effects frames directly follow the tool's frames inside the permit. Tied further by end-to-end correspondence: real runs through the HTTP router against a scripted loopback provider that misbehaves in every listed way (HTTP errors, dropped connection, cut at a random byte, empty body, missing [DONE], malformed JSON, schema-invalid events, invalid UTF-8) with all input kinds and tool outcomes, sequential and parallel on one thread; each run is abstracted from its session frames, the model predicts the exact position of every thread frame among them, and independent oracles check grammar, seq numbering, counts, reasons and job end counts on the log.",
+        "level_note": "Lean kernel; the kernel hook engine is assumed empty (ripd registers no session hooks; an aborting hook would end a session before its start frame); cancellation and panics inside a run are outside the model; the correspondence derives the run's abstraction from its own session frames, so it validates the placement of thread frames relative to session frames, not the session frames themselves (those are checked by the oracles).",
+        "technique": "Lean 4 proof (trace model, regular-language acceptor proved exact) + decide over regenerated effect orders and early-exit counts + end-to-end correspondence with a misbehaving scripted provider",
+        "design_ref": "§5 C07",
+        "trusted_base": COMMON_TB + [
+            "translator ripx (syn): effect orders of run_session / agent loop / thread_post_message incl. lifecycle appends, early-exit count (return and ? outside closures)",
+            "harness: scripted loopback provider (std TcpListener), abstraction of a run from its session frames",
+        ],
+        "assumptions": [
+            "no kernel session hooks are registered; runs are not cancelled and do not panic",
+            "log-append I/O errors do not occur (a failed run_spawned append after the message append would leave a message without a run)",
+        ],
+        "gen": ["EffectOrder"],
+    },
     "C09": {
         "level_text": "Lean 4 theorems over an executable model of cut points, planning, the auto job and the scheduler decision as functions of the thread's truth frames: cut points are exactly the k*stride-th messages (seq and id of that message), the latest multiples first, at most clamp(limit,1,32); a cut point is checkpointed exactly when a checkpoint frame for that seq exists, the latest by stream order winning; non-message frames do not move cut points; the plan is the unchecked cut points among the latest 32, capped; an auto run creates precisely the planned checkpoints in sorted order between exactly one job-spawned and one job-ended frame, continuing the numbering; with nothing to do or as a dry run it appends nothing; after a run every planned cut is checkpointed; scheduler: silent on noop/dry run, one decision frame when a job is in flight, job-spawned then decision otherwise. Tied to the code by differential correspondence: random histories (messages interleaved with other frames, manual checkpoints on and off boundaries, jobs left in flight) x operation sequences with stride / limit / max_new in {None,0,1,2,3,7,32,33,10000} and all boolean flags, responses (message count, every cut point field, planned list, decision/status) and the kinds/seqs/to_seq of appended frames compared with the compiled model; plus oracles: summaries readable with matching coverage, manual checkpoints only on message boundaries, and the same job on two byte-copies of a store writes the same summary text.",
         "level_note": "Lean kernel; the summary renderer is treated as a deterministic function and checked by the two-copies oracle (artifact ids minted during a run are canonicalised by position); the in-flight scan is modelled over the whole thread (the code scans a 512-frame tail; histories stay below it); cache fast paths inside cut_points are the subject of C04.",
